@@ -147,4 +147,16 @@ def install(M):
     M.methods[(Vec2, 'transpose')] = lambda interp, v, args, kw, node: transpose(v)
     M.methods[(Vec2, 'filled')] = lambda interp, v, args, kw, node: Vec2([M.call_method(interp, r, 'filled', args, kw, node) for r in v.rows], v.width, 'nd', v.dtype)
     M.methods[(Vec2, 'copy')] = lambda interp, v, args, kw, node: Vec2([r.copy() for r in v.rows], v.width, v.kind, v.dtype)
-    M.methods[(Vec2, 'flatten')] = M.methods[(Vec2, 'ravel')] = lambda interp, v, args, kw, node: Vec.fresh([e for r in v.rows for e in r.els()], kind=v.kind, dtype=v.dtype)
+    def _flatten2(interp, v, args, kw, node):
+        order = kw.get('order', args[0] if args else 'C')
+        if order not in ('C', None):
+            raise AnalysisError(f'2-D flatten / ravel with order={order!r} (memory layout) not modelled', node)
+        out = Vec.fresh([e for r in v.rows for e in r.els()], kind=v.kind, dtype=v.dtype, unit=v.rows[0].unit if v.rows else None)
+        out.narrow = any(getattr(r, 'narrow', False) for r in v.rows)
+        return out
+    M.methods[(Vec2, 'flatten')] = M.methods[(Vec2, 'ravel')] = _flatten2
+
+    def _reshape2(interp, v, args, kw, node):
+        flat = _flatten2(interp, v, [], {}, node)
+        return M.call_method(interp, flat, 'reshape', list(args), dict(kw), node)
+    M.methods[(Vec2, 'reshape')] = _reshape2
